@@ -44,6 +44,10 @@ func main() {
 		replayFile(*replay)
 		return
 	}
+	if fam == "conc-child" { // race-instrumented child of a conc.run record: -n = goroutines*1000 + rounds
+		fmt.Println(concRun(*seed, *n/1000, *n%1000))
+		return
+	}
 	f, ok := families[fam]
 	if !ok {
 		fmt.Fprintln(os.Stderr, "unknown family", fam)
